@@ -10,7 +10,10 @@ Stage C: lockstep correspondence on real TunnelCommunity / HiddenTunnelCommunity
          directions, cells injected under fresh keys / unknown ids.
 Oracle : (independent of the model) ping and speed-test cells sent into a plain circuit of 1..3 hops and into a
          linked e2e circuit (both directions) reach the far end's handler and the pong / response comes back to the
-         sender's request cache, attributed to that circuit; bytes handed to the exit socket equal the bytes sent and go to the given
+         sender's request cache, attributed to that circuit; datagrams returned through the exit that are shaped like
+         messages of the tunnel overlay itself (every cell type, naming the victim's circuit ids; outside sender = the
+         first hop's address, its IP with another port, an unrelated host) are never executed by the originator - no
+         handler, no delivery, no datagram sent, no table or cache change; bytes handed to the exit socket equal the bytes sent and go to the given
          destination; bytes returned arrive at the originator's on_raw_data with the outside source as origin
          and the right circuit; the body on link i peels to the plaintext cell with exactly the session keys of
          hops i+1..n (raw SessionKeys, not ipv8 code) and is 24 bytes longer than on link i+1; neither the
@@ -380,9 +383,11 @@ async def plain_scenarios(ctx, run, r):
         ctx.count(("ping", h), nontrivial=True)
         stats["ping"] += 1
         stats["cell_kinds_ok"] = stats.get("cell_kinds_ok", 0) + await cell_kinds(ctx, run, r, tn.origin, c, path[-1][0], "plain %d-hop" % h)
-        # returned IPv8-shaped data: own prefix -> re-injected with the circuit id; foreign prefix -> dropped here
+        # returned IPv8-shaped data: own prefix -> never executed by a plain tunnel node; foreign prefix -> dropped here
         own = tn.prefix() + bytes([254]) + r.randbytes(12)
-        await honest_backward(run, c, path, ("198.51.100.7", 7), own, {"kind": "backward", "hops": h, "size": len(own), "shape": "own-ipv8"}, "reinject")
+        await honest_backward(run, c, path, ("198.51.100.7", 7), own, {"kind": "backward", "hops": h, "size": len(own), "shape": "own-ipv8"}, "none")
+        stats["returned_control"] = stats.get("returned_control", 0) + await returned_tunnel_shaped(
+            ctx, run, r, c, path, [x for k, x in circuits.items() if k != h])
         other = b"\x00\x02" + r.randbytes(20) + bytes([1]) + r.randbytes(9)
         await honest_backward(run, c, path, ("198.51.100.7", 7), other, {"kind": "backward", "hops": h, "size": len(other), "shape": "foreign-ipv8"}, "none")
     # ------------------------------------------------------------------ faults
@@ -458,7 +463,21 @@ async def plain_scenarios(ctx, run, r):
                 def inject_plain(src, dst, dg):
                     return dg[:27] + b"\x01\x00" + bytes([1]) + r.randbytes(20)
                 faults.append((dict(base, kind="inject", how="plaintext-data", what="plaintext-flagged data cell (link %d, %s, %d hops)" % (link, direction, h)), True, inject_plain))
-                stats["inject"] += 3
+
+                def mk_plain(kind, early):
+                    def f(src, dst, dg, _k=kind, _e=early):
+                        from ipv8.messaging.anonymization.payload import DataPayload, PingPayload
+                        me = int.from_bytes(dg[23:27], "big")
+                        pl = DataPayload(me, ("7.7.7.7", 7), ("6.6.6.6", 6), b"dINJECTEDe") if _k == "data" else PingPayload(me, 99)
+                        body = bytes([pl.msg_id]) + tn.origin.serializer.pack_serializable(pl)[4:]
+                        return dg[:27] + b"\x01" + (b"\x01" if _e else b"\x00") + body
+                    return f
+                for kind in ("data", "ping"):
+                    for early in (False, True):
+                        faults.append((dict(base, kind="inject", how="plaintext-wellformed-%s%s" % (kind, "-early" if early else ""),
+                                            what="well-formed %s message with the plaintext flag set under this circuit's id (link %d, %s, %d hops)" % (
+                                                kind, link, direction, h)), True, mk_plain(kind, early)))
+                stats["inject"] += 7
                 await fault_round(run, c, path, direction, link, faults, dict(base, kind="tamper"), honest_dl, data, dest, source)
     return stats
 
@@ -517,6 +536,76 @@ async def cell_kinds(ctx, run, r, a, ca, b, label, sizes=(0, 1, 40, 279)):
             a.request_cache.pop(TestRequestCache, cache.number)
         ctx.count(("cell-kinds", "test", label, n), nontrivial=True)
     return n_ok
+
+
+def tunnel_shaped(tn, o, c, others, r):
+    """datagrams an outside host could send back through the exit that are shaped like messages of the tunnel overlay
+    itself (overlay prefix + message id + body): every cell type, naming the victim's circuit ids"""
+    from ipv8.messaging.anonymization.payload import (CreatedPayload, CreatePayload, DataPayload, ExtendedPayload, ExtendPayload,
+                                                      PingPayload, PongPayload, TestRequestPayload, TestResponsePayload, DestroyPayload)
+    pfx, ser = tn.prefix(), o.serializer
+    att = tn.nodes["relay2"]
+    _, pub = att.crypto.generate_diffie_secret()
+    akey = att.my_peer.public_key.key_to_bin()
+    cid = c.circuit_id
+    ocid = others[0].circuit_id if others else cid
+    out = []
+
+    def m(name, payload):
+        out.append((name, pfx + bytes([payload.msg_id]) + ser.pack_serializable(payload)))
+    m("data-for-this-circuit", DataPayload(cid, NULL, ("6.6.6.6", 6), b"INJECTED" * 4))
+    m("data-for-another-own-circuit", DataPayload(ocid, NULL, ("6.6.6.6", 6), b"INJECTED" * 4))
+    m("data-to-exit-again", DataPayload(cid, ("7.7.7.7", 7), ("6.6.6.6", 6), b"dINJECTEDe"))
+    m("create", CreatePayload(r.getrandbits(32), 7, akey, pub))
+    m("created", CreatedPayload(cid, 7, pub, bytes(32), b"x" * 30))
+    m("extend", ExtendPayload(cid, 7, akey, pub, att.my_peer.address))
+    m("extended", ExtendedPayload(cid, 7, pub, bytes(32), b"x" * 30))
+    m("ping", PingPayload(cid, 77))
+    m("pong", PongPayload(cid, 77))
+    m("test-request", TestRequestPayload(cid, 5, 20, b"abc"))
+    m("test-response", TestResponsePayload(cid, 5, b"abc"))
+    out.append(("destroy", att.ezr_pack(DestroyPayload.msg_id, DestroyPayload(cid, 1))))
+    out.append(("cell", pfx + b"\x00" + cid.to_bytes(4, "big") + b"\x01\x00" + bytes([1]) + r.randbytes(30)))
+    out.append(("unknown-id", pfx + bytes([254]) + r.randbytes(12)))
+    return out
+
+
+async def returned_tunnel_shaped(ctx, run, r, c, path, others):
+    """the outside world answers through the exit with datagrams shaped like circuit messages; senders: the first hop's
+    exact address (spoofed), its IP with another port, an unrelated host.  Nothing may be executed by the originator."""
+    tn, o = run.tn, run.tn.origin
+    ex, xcid, _ = path[-1]
+    fh = tuple(c.hop.address)
+    n = 0
+    for sname, source in (("first-hop-address", fh), ("first-hop-ip-other-port", (fh[0], 4444)), ("unrelated", ("203.0.113.77", 4242))):
+        for kind, inner in tunnel_shaped(tn, o, c, others, r):
+            meta = {"kind": "returned-control", "inner": kind, "sender": sname, "hops": len(c.hops),
+                    "what": "a %s message of the tunnel overlay returned through the exit by an outside sender (%s)" % (kind, sname)}
+            before = (set(o.exit_sockets), set(o.relay_from_to), set(o.circuits), set(o.request_cache._identifiers))
+            evs = [run.tunnel_data(ex, xcid, source, inner)]
+            await tn.drain(evs)
+            for _ in range(4):
+                await asyncio.sleep(0)
+            await tn.drain(evs)
+            run.add_all(evs, meta)
+            n += 1
+            ctx.count(("returned-control", kind, sname, len(c.hops)), nontrivial=True)
+            hs = [(e["node"], rec[1]) for e in evs for rec in e["records"] if rec[0] == "handler"]
+            dl = [d for d in deliveries(evs) if d[0] in ("raw", "exit", "reinject")]
+            sent_by_o = [rec for e in evs for rec in e["records"] if rec[0] == "send" and rec[1] == tuple(o.my_peer.address)]
+            after = (set(o.exit_sockets), set(o.relay_from_to), set(o.circuits), set(o.request_cache._identifiers))
+            if hs != [(o._verif_name, 1)] or dl or sent_by_o or after != before:
+                what = []
+                if [h for h in hs if h != (o._verif_name, 1)]:
+                    what.append("handlers entered %s" % [h for h in hs[1:]])
+                if dl:
+                    what.append("delivered %s" % [d[0] for d in dl])
+                if sent_by_o:
+                    what.append("the originator itself sent %d datagram(s) to %s" % (len(sent_by_o), sorted({x[2] for x in sent_by_o})))
+                if after != before:
+                    what.append("the originator's tables / request caches changed")
+                ctx.violation("returned-control/executed-from-%s" % sname, "%s: %s" % (meta["what"], "; ".join(what)), meta)
+    return n
 
 
 def la_lb_guard(ca, cb_):
@@ -588,6 +677,45 @@ async def e2e_scenario(ctx, run, r):
     for a, ca, b in ((downloader, dc, seeder), (seeder, sc, downloader)):
         kinds_ok += await cell_kinds(ctx, run, r, a, ca, b, "linked e2e (from the %s)" % ("downloader" if a is downloader else "seeder"))
     ctx.extra["e2e_cell_kinds_ok"] = kinds_ok
+    # a plain data circuit of a hidden-services node: the lookups that are meant to travel inside data messages
+    # (peers-response here, unknown identifier) are handed to the dispatcher with the outside sender as source;
+    # circuit control messages are not
+    from ipv8.messaging.anonymization.payload import CreatePayload, PeersResponsePayload
+    pc = await tn.build_circuit(2)
+    if pc is None:
+        ctx.broke("e2e scenario: plain circuit of the hidden-services node not built")
+    else:
+        ppath = path_of(tn, pc)
+        pex, pxcid, _ = ppath[-1]
+        src = ("203.0.113.5", 5353)
+        pr = tn.prefix() + bytes([PeersResponsePayload.msg_id]) + seeder.serializer.pack_serializable(
+            PeersResponsePayload(pc.circuit_id, r.randrange(65536), bytes(20), []))
+        evs = [run.tunnel_data(pex, pxcid, src, pr)]
+        await tn.drain(evs)
+        meta = {"kind": "backward", "shape": "peers-response", "hops": 2}
+        run.add_all(evs, meta)
+        hs = [(e["node"], rec[1]) for e in evs for rec in e["records"] if rec[0] == "handler"]
+        if hs != [(seeder._verif_name, 1), (seeder._verif_name, PeersResponsePayload.msg_id)] or \
+                [d for d in deliveries(evs) if d[0] == "reinject"] != [("reinject", src, pr, pc.circuit_id)]:
+            ctx.violation("backward/lookup-answer-not-dispatched", "a peers-response returned through the exit was not handed to its handler "
+                          "with the outside sender and this circuit's id (handlers %s)" % hs, meta)
+        _, pub = downloader.crypto.generate_diffie_secret()
+        cr = tn.prefix() + bytes([2]) + seeder.serializer.pack_serializable(
+            CreatePayload(r.getrandbits(32), 7, downloader.my_peer.public_key.key_to_bin(), pub))
+        before = set(seeder.exit_sockets)
+        evs = [run.tunnel_data(pex, pxcid, src, cr)]
+        await tn.drain(evs)
+        for _ in range(4):
+            await asyncio.sleep(0)
+        await tn.drain(evs)
+        meta = {"kind": "returned-control", "inner": "create", "sender": "unrelated", "hidden": True,
+                "what": "a create message of the tunnel overlay returned through the exit by an outside sender (hidden-services node)"}
+        run.add_all(evs, meta)
+        hs = [(e["node"], rec[1]) for e in evs for rec in e["records"] if rec[0] == "handler"]
+        sent_by_o = [rec for e in evs for rec in e["records"] if rec[0] == "send" and rec[1] == tuple(seeder.my_peer.address)]
+        if hs != [(seeder._verif_name, 1)] or sent_by_o or set(seeder.exit_sockets) != before:
+            ctx.violation("returned-control/executed", "%s: handlers %s, %d datagram(s) sent by the originator, exit sockets %s" % (
+                meta["what"], hs, len(sent_by_o), sorted(set(seeder.exit_sockets) - before)), meta)
     for a, ca, b, cb_, d_hs in ((downloader, dc, seeder, sc, 1), (seeder, sc, downloader, dc, 0)):
         payloads = [("raw", shaped(r, n, "raw")) for n in ([0, 1, 40, 279, 1000] if ctx.quick else [0, 1, 2, 40, 279, 600, 1000, 1400])]
         # every size below the IPv8 threshold, non-IPv8 payloads around it, and IPv8-shaped payloads (00 01 / 00 02 and at
@@ -763,6 +891,9 @@ async def replay_case(case, verbose=True):
         size = int(case.get("size", 40))
         data = shaped(r, size)
         dest, source = ("1.2.3.4", 5), ("5.6.7.8", 9)
+        if case.get("kind") == "returned-control":
+            await returned_tunnel_shaped(ctx, run, r, c, path, [])
+            return problems
         if case.get("kind") == "cell-kinds":
             await cell_kinds(ctx, run, r, tn.origin, c, path[-1][0], "plain %d-hop" % h)
             return problems
@@ -835,7 +966,7 @@ def run(ctx):
     ctx.coverage["rule"] = ("real nodes: 1 originator, 3 relays, 2 exits, circuits of 1..3 hops alive at the same time; per circuit: payload sizes "
                             "{0,1,2,279,1000,1400} (thorough: 0..1400 step 7) forward (v4/v6/domain destinations) and backward, speed-test request/response, "
                             "ping/pong, cell kinds {ping, speed-test} x {plain 1..3 hops, linked e2e both directions} "
-                            "with request-cache oracle, returned IPv8-shaped data (own / foreign prefix); faults per direction and link: every header byte, 64 sampled "
+                            "with request-cache oracle, returned IPv8-shaped data (own / foreign prefix), returned datagrams shaped like every tunnel message type x 3 outside senders; faults per direction and link: every header byte, 64 sampled "
                             "(thorough: all) body bytes, truncation, extension, cross-circuit and reflected splices, injection under fresh keys / unknown id / "
                             "plaintext flag; one end-to-end (rendezvous) circuit pair, both directions: sizes, every size 0..22, "
                             "non-IPv8 and IPv8-shaped payloads (foreign / own prefix), faults on every link; each event is one lockstep case; "
